@@ -10,6 +10,7 @@
 import JinjaV.Lemmas.AutoescClean
 import JinjaV.Model.SelectAutoescape
 import JinjaV.Gen.MarkupSites
+import JinjaV.Gen.OverlayCache
 import JinjaV.Model.AutoescRegion
 
 namespace JinjaV.C15
@@ -136,6 +137,19 @@ theorem markup_sites_mapped : Gen.MarkupSites.sites = [
     ("compiler", "CodeGenerator.visit_Filter", "emits: Markup(concat("),   -- Tm.blk (filter block / filtered set block)
     ("compiler", "CodeGenerator.visit_MarkSafe", "emits: Markup("),   -- produced by extensions only (i18n): excluded
     ("compiler", "CodeGenerator.visit_MarkSafeIfAutoescape", "emits: (Markup if context.eval_ctx.autoescape else identity)(")] := rfl   -- produced by extensions only (i18n): excluded
+
+/-! ## an overlay never sees its parent's compiled templates -/
+
+/-- **overlay_cache_fresh**: a compiled template carries its compile-time escaping decision and the template cache is keyed by
+    (loader, name) only, so an overlay that changes `autoescape` is correct only if its cache starts EMPTY.  READ from
+    environment.py on every run (Gen/OverlayCache.lean): every return of `copy_cache` and of `create_cache` is `None`, `{}` or a
+    new `LRUCache` of the same capacity — never the parent's cache or a copy of its entries — and `Environment.overlay` always
+    assigns `rv.cache` from one of these two functions (the two arms of one if/else). -/
+theorem overlay_cache_fresh :
+    Gen.OverlayCache.copyCacheReturns.map Prod.snd = ["none", "emptyDict", "emptyLRU"] ∧
+    Gen.OverlayCache.createCacheReturns.map Prod.snd = ["none", "emptyDict", "emptyLRU"] ∧
+    Gen.OverlayCache.overlayCacheAssignments = ["create_cache(cache_size)", "copy_cache(self.cache)"] ∧
+    Gen.OverlayCache.overlayCacheAlwaysAssigned = true := ⟨rfl, rfl, rfl, rfl⟩
 
 /-! ## select_autoescape -/
 
